@@ -593,7 +593,12 @@ def run_kernel(unit):
     lp_r = np.array([setup.fam.logp(t.astype(np.float64), setup.off) for t in thetas])
     dev = (np.asarray(lp_j, dtype=np.float64) - lp_r)
     if np.max(np.abs(dev - dev[0])) > 1e-3 * (1 + np.max(np.abs(lp_r))):
-        raise RuntimeError(f"model twin and reference density disagree: {dev}")
+        if unit["iface"] == "dict":
+            raise RuntimeError(f"model twin and reference density disagree: {dev}")
+        # real lsl.Model behind liesel's own interface: update_state + log_prob IS code under
+        # test (the kernels' pi); a wrong density after update_state is a finding
+        W.fail("interface-density", {"thetas": thetas.tolist(), "log_prob_interface": np.asarray(lp_j, dtype=np.float64).tolist(), "log_prob_reference": lp_r.tolist()},
+               f"log_prob(update_state(position)) through {type(setup.iface).__name__} (auto_update={setup.iface._model.auto_update}) is not the model density at the position (differences to the reference are not constant: {dev[:4].tolist()})")
 
     f = setup.transition_fn()
     F = jax.jit(jax.vmap(f))
